@@ -126,12 +126,13 @@ def render_v3000(rnd: random.Random, m: Mol, cuts=True, blank_runs=True, extra_k
 CHARGE_CODE = {3: 1, 2: 2, 1: 3, -1: 5, -2: 6, -3: 7}
 
 
-def prop_lines(rnd, tag, entries):
+def prop_lines(rnd, tag, entries, full=None):
+    """`full`: fill every line with that many entries (the last one takes the rest) instead of a random 1..8"""
     out = []
     entries = list(entries)
     rnd.shuffle(entries)
     while entries:
-        k = rnd.randint(1, 8)
+        k = full or rnd.randint(1, 8)
         chunk, entries = entries[:k], entries[k:]
         out.append(f"M  {tag}{len(chunk):3d}" + "".join(f" {a:3d} {v:3d}" for a, v in chunk))
     return out
@@ -158,7 +159,7 @@ def rand_mol_v2000(rnd: random.Random, max_atoms=12, syms=("C", "N", "O", "H", "
     return Mol(atoms, bonds)
 
 
-def render_v2000(rnd: random.Random, m: Mol, mode: dict) -> str:
+def render_v2000(rnd: random.Random, m: Mol, mode: dict, max_per_line=None) -> str:
     """mode: chg_lines (use M CHG/M RAD instead of the charge code), stale_codes (atom-block codes that must be
     superseded), zeros (explicit zero entries), extras (unrelated property lines)"""
     L = ["name", "  prog", "comment", f"{len(m.atoms):3d}{len(m.bonds):3d}  0  0  0  0  0  0  0  0999 V2000"]
@@ -183,9 +184,9 @@ def render_v2000(rnd: random.Random, m: Mol, mode: dict) -> str:
             chg += [(i + 1, 0) for i, a in enumerate(m.atoms) if not a["chg"] and rnd.random() < .3]
             rad += [(i + 1, 0) for i, a in enumerate(m.atoms) if not a["rad"] and rnd.random() < .3]
         if chg:
-            props += prop_lines(rnd, "CHG", chg)
+            props += prop_lines(rnd, "CHG", chg, max_per_line)
         if rad:
-            props += prop_lines(rnd, "RAD", rad)
+            props += prop_lines(rnd, "RAD", rad, max_per_line)
         if not chg and not rad and mode.get("stale_codes"):
             props += ["M  CHG  0"] if rnd.random() < .5 else ["M  RAD  0"]
     iso = [(i + 1, a["mass"]) for i, a in enumerate(m.atoms) if a["mass"]]
@@ -195,7 +196,7 @@ def render_v2000(rnd: random.Random, m: Mol, mode: dict) -> str:
         # an ISO entry naming a D/T atom (any value, also a contradictory one): D and T keep denoting hydrogen-2 / -3
         iso += [(i + 1, rnd.choice([0, 1, 2, 3, 5, 13])) for i, a in enumerate(m.atoms) if a["sym"] in "DT" and rnd.random() < .7]
     if iso:
-        props += prop_lines(rnd, "ISO", iso)
+        props += prop_lines(rnd, "ISO", iso, max_per_line)
     if mode.get("extras"):
         extra = ["M  STY  1   1 SUP", "M  ALS   1  2 F C   N", "G    1  2", "V    1 note", "M  RGP  1   1   1"]
         for e in rnd.sample(extra, rnd.randint(0, 2)):
